@@ -90,21 +90,12 @@ type StoredEvent struct {
 	Timestamp time.Time       `json:"timestamp"`
 }
 
-// WithStore enables persistence with the given store
+// WithStore enables persistence with the given store.
+// Events are persisted by PublishContext after the before-publish hooks,
+// independently of the order in which options are given.
 func WithStore(store EventStore) Option {
 	return func(bus *EventBus) {
 		bus.store = store
-
-		// Chain the persistence hook with any existing context-aware hook
-		existingHook := bus.beforePublishCtx
-		bus.beforePublishCtx = func(ctx context.Context, eventType reflect.Type, event any) {
-			// Call existing hook first if any
-			if existingHook != nil {
-				existingHook(ctx, eventType, event)
-			}
-			// Then persist the event
-			bus.persistEvent(ctx, eventType, event)
-		}
 	}
 }
 
